@@ -42,6 +42,7 @@ type watchOut struct {
 	PosLog    string `json:"pos_log,omitempty"`
 	PosErr    string `json:"pos_err,omitempty"`
 	PosWallNs int64  `json:"pos_wall_ns"`
+	Tick      int64  `json:"tick"`
 	SwapDone  bool   `json:"swap_done"`
 	SwapCode  uint32 `json:"swap_code"`
 	SwapLog   string `json:"swap_log,omitempty"`
@@ -96,6 +97,9 @@ func watchChild(spec watchSpec) {
 	out.PosDone, out.PosErr, out.PosWallNs = true, r.Err, int64(r.Wall)
 	if len(r.Txs) == 1 {
 		out.PosCode, out.PosLog = r.Txs[0].Code, r.Txs[0].Log
+	}
+	if pl, found, err := w.h.App.LiquiditypoolKeeper.GetPool(w.h.Ctx(), 0); err == nil && found {
+		out.Tick = pl.CurrentTick
 	}
 	writeOut(spec.Out, out)
 	if spec.SwapIn != "" {
